@@ -69,6 +69,9 @@ class Spec:
     add_is_append: bool = False  # `a + b` on such sequences is `a ++ b`
     # expression statements that update a local in place, by exact source text: text -> (local name, Lean expression for its new value)
     stmt_rewrites: dict[str, tuple[str, str]] = field(default_factory=dict)
+    # translate only from the statement whose source text starts with this (searched through `with` blocks) to the end of its block;
+    # what precedes it (argument checks, query construction) is outside the translated part and named in the generator's docstring
+    start_at: str = ""
 
 
 def apply_stmt_rewrites(fn: ast.FunctionDef, spec: "Spec") -> ast.FunctionDef:
@@ -78,19 +81,45 @@ def apply_stmt_rewrites(fn: ast.FunctionDef, spec: "Spec") -> ast.FunctionDef:
     counter = [0]
 
     class R(ast.NodeTransformer):
-        def visit_Expr(self, node: ast.Expr):
-            t = ast.unparse(node.value)
-            if t in spec.stmt_rewrites:
-                name, lean = spec.stmt_rewrites[t]
-                counter[0] += 1
-                ph = f"__rewritten_{counter[0]}"
-                spec.subst[ph] = lean
-                return ast.copy_location(ast.Assign(targets=[ast.Name(id=name, ctx=ast.Store())], value=ast.Name(id=ph, ctx=ast.Load()), lineno=node.lineno), node)
-            return node
+        def generic_visit(self, node):
+            if isinstance(node, ast.stmt):
+                t = ast.unparse(node)
+                if t in spec.stmt_rewrites:
+                    name, lean = spec.stmt_rewrites[t]
+                    counter[0] += 1
+                    ph = f"__rewritten_{counter[0]}"
+                    spec.subst[ph] = lean
+                    return ast.copy_location(ast.Assign(targets=[ast.Name(id=name, ctx=ast.Store())], value=ast.Name(id=ph, ctx=ast.Load()), lineno=node.lineno), node)
+            return super().generic_visit(node)
 
     import copy
 
     return ast.fix_missing_locations(R().visit(copy.deepcopy(fn)))
+
+
+def slice_from(fn: ast.FunctionDef, start_at: str, qualname: str) -> ast.FunctionDef:
+    """The function with its body cut down to the statement starting with `start_at` and what follows it in the same block."""
+    if not start_at:
+        return fn
+
+    def find(body):
+        for i, st in enumerate(body):
+            if ast.unparse(st).startswith(start_at):
+                return body[i:]
+            if isinstance(st, ast.With):
+                r = find(st.body)
+                if r is not None:
+                    return r
+        return None
+
+    rest = find(fn.body)
+    if rest is None:
+        raise Untranslatable(f"{qualname}: no statement starting with {start_at!r}")
+    import copy
+
+    out = copy.copy(fn)
+    out.body = rest
+    return out
 
 
 def find_function(tree: ast.Module, qualname: str) -> ast.FunctionDef:
@@ -296,7 +325,7 @@ class Tr:
             return any(t.startswith(p) for p in self.s.skip_prefixes)
         if isinstance(st, ast.AnnAssign) and st.value is None:
             return True
-        if isinstance(st, ast.Pass):
+        if isinstance(st, (ast.Pass, ast.Assert)):
             return True
         if isinstance(st, ast.If):
             return all(self.skippable(x) for x in st.body) and all(self.skippable(x) for x in st.orelse)
@@ -560,6 +589,8 @@ class StateTr(Tr):
             if in_loop:
                 raise Untranslatable(f"{self.s.qualname}: return inside a loop")
             return self.st
+        if isinstance(st, ast.With):
+            return self.stm(list(st.body) + rest, depth, in_loop)
         if isinstance(st, ast.Break):
             if not in_loop:
                 raise Untranslatable(f"{self.s.qualname}: break outside a loop")
@@ -637,7 +668,7 @@ def translate_file(src_path: str, specs: list[Spec], namespace: str, header: str
         "",
     ]
     for sp in specs:
-        fn = apply_stmt_rewrites(find_function(tree, sp.qualname), sp)
+        fn = apply_stmt_rewrites(slice_from(find_function(tree, sp.qualname), sp.start_at, sp.qualname), sp)
         out.append(f"-- {sp.qualname}  (lines {fn.lineno}-{fn.end_lineno})  variants={sp.variants}")
         out.append((tr_cls(sp) if tr_cls else Tr(sp)).function(fn))
     out.append(f"end {namespace}")
